@@ -55,6 +55,14 @@ def families(tier, seed):
     r.shuffle(multi)
     for sc, tc, ds in multi[: (len(multi) if tier == "thorough" else 200)]:
         out.append(("multi-decorator", graphgen.graph_cfg(3, set(), tag_carriers=tc, decorators=ds, scopes=sc)))
+    # todo placeholders keep their declared scope: a shared service reaching a contextual placeholder is rejected like any other
+    for sc in itertools.product(SCOPES, repeat=3):
+        if "shared" not in sc or "contextual" not in sc:
+            continue
+        for td in range(3):
+            for es in [{(0, 1), (1, 2)}, {(0, 2)}, {(1, 0), (2, 1)}, {(2, 0)}, {(0, 1), (0, 2)}, {(1, 2), (2, 0)}]:
+                es2 = {(a, b) for (a, b) in es if a != td}
+                out.append(("todo-scoped", graphgen.graph_cfg(3, es2, scopes=dict(enumerate(sc)), todos=(td,))))
     # a reference to an undeclared service is not a scope matter, wherever it stands among the arguments
     for k in range(60 if tier == "quick" else 1500):
         n = r.randint(3, 5)
